@@ -71,6 +71,9 @@ def judge(rec):
     s = np.asarray(rec["s"], dtype=float)
     n = len(s)
     bp, bn, tol = rec["beta_prev"], rec["beta_new"], rec["tol"]
+    # tolerances tighter than the reference curve can resolve are judged as 1e-9 (only relaxes the verdict; what such calls
+    # decide is that the search returns at all, see direct_case)
+    tol = max(tol, 1e-9)
     eps = float(np.finfo(np.float32 if "32" in rec.get("dtype", "float64") else np.float64).eps)
     fin = s[np.isfinite(s)]
     smax = float(np.max(np.abs(fin))) if len(fin) else 0.0
@@ -153,7 +156,9 @@ def post_determine_beta(self, samples, beta, min_step, beta_tolerance, result):
         "beta_new": float(to_np(new_beta)),
         "min_step_in": float(min_step) if min_step is not None else None,
         "min_step_out": float(new_min) if new_min is not None else None,
-        "tol": float(beta_tolerance),
+        # in whole runs the tolerance "stated" is the documented default of the sampling call (the sampler front-ends take no
+        # tolerance option), whatever value reaches the search; in direct calls it is the argument
+        "tol": min(float(beta_tolerance), 1e-6) if STATE.get("asked") else float(beta_tolerance),
         # the target "in force" is what the caller of the run asked for (an option lost on the way to the sampler must show)
         "target": STATE["asked"][0] if STATE.get("asked") else getattr(self, "_target_efficiency", None),
         "target_rate": STATE["asked"][1] if STATE.get("asked") else getattr(self, "target_efficiency_rate", 1.0),
@@ -185,6 +190,10 @@ def install_contract():
 # ------------------------------------------------------------------ workloads
 
 
+class SearchDoesNotReturn(RuntimeError):
+    pass
+
+
 def direct_case(case):
     from aspire.samplers.smc.minipcn import MiniPCNSMC
     from aspire.samples import SMCSamples
@@ -209,6 +218,12 @@ def direct_case(case):
         bp = float(g.choice([0.0, 0.0, g.uniform(0, 1), g.uniform(0.9, 1), 10 ** g.uniform(-8, -1)]))
         bp = min(bp, 1 - 1e-9)
         tol = float(10 ** g.uniform(-8, -2))
+        tight = bool(g.random() < 0.15)
+        if tight:
+            # tight but valid (well above the spacing of floating-point numbers below 1), with the search starting near 1
+            tol = float(10 ** g.uniform(-15, -12))
+            bp = float(g.choice([bp, g.uniform(0.85, 0.999), g.uniform(0.5, 0.999)]))
+            STATE["counters"]["searches_with_tight_tolerance"] += 1
         if g.random() < 0.3:
             t0 = float(g.uniform(0.05, 0.6))
             target = (t0, float(g.uniform(t0 + 0.05, 0.98)))
@@ -236,8 +251,22 @@ def direct_case(case):
         sm.target_efficiency = target
         sm.target_efficiency_rate = rate
         STATE["gen"] = kind
+        # bounded progress of the search itself: bisection to 1e-15 needs ~50 evaluations; thousands mean it does not return
+        budget = {"n": 0}
+        for name in ("log_weights", "unnormalized_log_weights"):
+            orig_m = getattr(pop, name)
+
+            def counted(beta, _orig=orig_m):
+                budget["n"] += 1
+                if budget["n"] > 3000:
+                    raise SearchDoesNotReturn()
+                return _orig(beta)
+
+            setattr(pop, name, counted)
         try:
             sm.determine_beta(pop, bp, float("nan"), min_step, beta_tolerance=tol)
+        except SearchDoesNotReturn:
+            STATE["viol"].append({"mech": "C07/temperature-search-does-not-return", "detail": f"direct/{case['xp']} N={n} kind={kind} beta_prev={bp!r} tol={tol!r} target={target}: more than 3000 weight evaluations inside one search"})
         except ZeroDivisionError as exc:
             STATE["viol"].append(
                 {"mech": "C07/search-raises-ZeroDivisionError-with-step-cap", "detail": f"direct N={n} beta_prev={bp} min_step={min_step} adaptive floor: {exc}"}
